@@ -21,6 +21,7 @@ template <class FL> static void free_list_variant(const Program& P) {
       if (o.name == "put") { N* n = new N; n->id = (int)o.arg(0); all.push_back(n); vs::mem_register(n, sizeof(N), n->id); inv("put", n->id); fl.put(n); ret(1); }
       else if (o.name == "get") { inv("get"); N* n = static_cast<N*>(fl.get()); if (n) held.push_back(n); ret(n != nullptr, n ? n->id : 0); }
       else if (o.name == "reput") { if (held.empty()) return; N* n = held.back(); held.pop_back(); inv("put", n->id); fl.put(n); ret(1); }
+      else if (o.name == "reputf") { if (held.empty()) return; N* n = held.front(); held.erase(held.begin()); inv("put", n->id); fl.put(n); ret(1); }   // put back the node obtained first
       else if (o.name == "drainq") { for (;;) { inv("getq"); N* n = static_cast<N*>(fl.get()); ret(n != nullptr, n ? n->id : 0); if (!n) break; } } };
     std::function<void()> pre = [&] { doop(Op{"begin", {}}); };
     pre(); for (auto& o : P.init) doop(o);
